@@ -62,13 +62,20 @@ def T_slug_dup(name, i):
         dict(name=name.lower() + "-1", marker=name, title=name, kind="slug-dup", explicit=False, ordinal=1)]
 
 
+def T_slug_dup3(name, i):
+    return [f"## {name}", "", f"DUPSEP{i}", "", f"## {name}", "", f"DUPSEQ{i}", "", f"## {name}"], [
+        dict(name=name.lower(), marker=name, title=name, kind="slug", explicit=False, ordinal=0),
+        dict(name=name.lower() + "-1", marker=name, title=name, kind="slug-dup", explicit=False, ordinal=1),
+        dict(name=name.lower() + "-2", marker=name, title=name, kind="slug-dup3", explicit=False, ordinal=2)]
+
+
 def T_case(name, i):
     mixed = name.capitalize() + "-X"
     return [f"({mixed})=", f"TM{i} para"], [dict(name=mixed, marker=f"TM{i} para", title=None, kind="tgt-case", explicit=True)]
 
 
 TK = {"tgt-para": T_target_para, "tgt-head": T_target_head, "attr-para": T_attr_para, "attr-head": T_attr_head,
-      "dir-name": T_dir_name, "slug": T_slug, "slug-dup": T_slug_dup, "tgt-case": T_case}
+      "dir-name": T_dir_name, "slug": T_slug, "slug-dup": T_slug_dup, "slug-dup3": T_slug_dup3, "tgt-case": T_case}
 FORMS = ["text", "empty", "auto", "nested"]
 CTX = {
     "top": lambda ls: ls,
@@ -189,8 +196,10 @@ class LinkSystem(System):
 
     def cases(self):
         for targets in self.target_sets():
+            if self.two and self.tier == "quick" and len(targets) == 2 and targets[0][1] != targets[1][1]:
+                continue  # quick: two links against single targets and the explicit-vs-slug priority pairs; all pairs in the thorough tier
             has_case = any(k == "tgt-case" for k, _ in targets)
-            names = ["aa", "bb", "zz", "aa-1"] + (["Aa-X", "aa-x"] if has_case else [])
+            names = ["aa", "bb", "zz", "aa-1"] + (["Aa-X", "aa-x"] if has_case else []) + (["aa-2"] if any(k == "slug-dup3" for k, _ in targets) else [])
             if not self.two:
                 for tctx in CTX:
                     for form in FORMS:
@@ -314,6 +323,8 @@ class SphinxLinkSystem(LinkSystem):
         ctxs = ("top", "quote") if self.tier == "quick" else ("top", "quote", "list", "note")
         for c in super().cases():
             if c["tctx"] in ctxs and c["links"][0][2] in ctxs:
+                if self.tier == "quick" and len(c["targets"]) == 2 and c["order"] == "before":
+                    continue
                 yield c
 
     def render(self, text):
